@@ -470,11 +470,19 @@ def argPathEmpty (a : Gen.ArgPath) : Bool :=
 def argPathFails (a : Gen.ArgPath) : Bool :=
   (a.rejects && a.uses.isEmpty) || (a.file == "prepare_stmt.go" && a.neg.contains "err == nil")
 
-def argPathOk (a : Gen.ArgPath) : Bool := argPathForwards a || argPathEmpty a || argPathFails a
+/-- callbacks/preload.go `preload`: the path issues no preload query at all (no foreign-key values to look up, or the
+    join-table query failed) — there is no statement the conditions could be missing from -/
+def argPathNoStatement (a : Gen.ArgPath) : Bool :=
+  a.fn == "preload" && a.file == "callbacks/preload.go" &&
+    (a.pos.contains "len(foreignValues) == 0" || a.pos.contains "len(joinForeignValues) == 0" ||
+     a.neg.contains "len(values) != 0" || (a.pos.contains "err != nil" && a.uses.isEmpty))
+
+def argPathOk (a : Gen.ArgPath) : Bool := argPathForwards a || argPathEmpty a || argPathFails a || argPathNoStatement a
 
 /-- **no entry point drops its arguments depending on the text**: on every control-flow path through every function
     of the statement-building API that has a variadic `…interface{}` / `…clause.Expression` parameter (chain methods,
-    finishers, `BuildCondition`, `AddVar`, `gorm.Expr`, `clause.And/Or/Not`, the prepared-statement ConnPool wrappers)
+    finishers, `BuildCondition`, `AddVar`, `gorm.Expr`, `clause.And/Or/Not`, the prepared-statement ConnPool wrappers;
+    and the stored condition lists of `Preload` in callbacks/preload.go)
     the parameter is handed on as a whole — unless the path condition itself states that it is empty, or the path ends
     in an error.  (The m9 shape — arguments forwarded only under a condition on the string — leaves a path with
     neither.) -/
@@ -483,7 +491,8 @@ theorem C01_api_args_forwarded : ∀ a ∈ Gen.argPaths, argPathOk a = true := b
 /-- the functions this is about — a new entry point with arguments shows up here -/
 theorem C01_api_fns :
     Gen.apiFns.map (fun f => (f.fn, f.param)) =
-      [("DB.Assign", "attrs"), ("DB.Attrs", "attrs"), ("DB.Clauses", "conds"), ("DB.Distinct", "args"), ("DB.Having", "args"),
+      [("preload", "conds"), ("preloadEntryPoint", "associationsConds"),
+       ("DB.Assign", "attrs"), ("DB.Attrs", "attrs"), ("DB.Clauses", "conds"), ("DB.Distinct", "args"), ("DB.Having", "args"),
        ("DB.InnerJoins", "args"), ("DB.Joins", "args"), ("DB.Not", "args"), ("DB.Or", "args"), ("DB.Preload", "args"),
        ("DB.Raw", "values"), ("DB.Select", "args"), ("DB.Table", "args"), ("DB.Where", "args"), ("joins", "args"),
        ("And", "exprs"), ("Not", "exprs"), ("Or", "exprs"),
